@@ -14,7 +14,7 @@ open ParseL
 /-- what may follow a condition -/
 def StopCond : List Lexem → Prop
   | [] => True
-  | .and_ :: _ | .or_ :: _ | .close :: _ | .cclose :: _ | .order :: _ | .limit :: _ | .into :: _ => True
+  | .and_ :: _ | .or_ :: _ | .close :: _ | .cclose :: _ | .order :: _ | .limit :: _ | .into :: _ | .comma :: _ | .desc :: _ => True
   | _ => False
 
 /-- the prefix NOTs of a condition -/
